@@ -125,8 +125,12 @@ class Reducer:
         self.int_vars = {}
         for v in list(self.rules_z3):
             self.zvars[v] = z3.Real(v)
-        for v, rhs in self.rules_z3.items():
-            self.rule_poly[v] = self._conv(rhs, plain=True)
+        for v, rhs in list(self.rules_z3.items()):
+            try:
+                self.rule_poly[v] = self._conv(rhs, plain=True)
+            except NotPolynomial:
+                # a rule whose right-hand side is not a polynomial (e.g. sqrt of a quotient) is simply not used
+                del self.rules_z3[v]
 
     # ---- reduction of a polynomial, tracking cofactors
     def _rule_shifts(self):
